@@ -95,8 +95,8 @@ MUTANTS = [
     ('m63', 'C15', 'break', 'skoolkit/skoolmacro.py', "        udg_array[-1].extend(FILL_UDG.copy() for n in range(width - len(udg_array[-1])))", "        udg_array[-1].extend((FILL_UDG,) * (width - len(udg_array[-1])))", None),
     ('m64', 'C07', 'break', 'skoolkit/z80.py', "    if not instruction.operation.upper().startswith('DEF') and instruction.bytes:", "    if not instruction.operation.startswith('DEF') and instruction.bytes:", 'opcodes:00'),
     ('m65', 'C09', 'break', 'skoolkit/bin2sna.py', "                data = list(read_bin_file(f, 0x4000))", "                data = list(read_bin_file(f, 0x3FFF))", None),
-    ('m66', 'C13', 'break', 'skoolkit/loadtracer.py', "                        state[8] = ((registers[25] + frame_duration - int_active) // frame_duration) * frame_duration\n        return func",
-     "                        state[8] = ((tstates + frame_duration - int_active) // frame_duration) * frame_duration\n        return func", 'opcodes:00'),
+    ('m66', 'C13', 'break', 'skoolkit/loadtracer.py', "                        registers[25] = state[0] = edges[state[1]]\n                        state[8] = ((registers[25] + frame_duration - int_active) // frame_duration) * frame_duration",
+     "                        registers[25] = state[0] = edges[state[1]]\n                        state[8] = ((tstates + frame_duration - int_active) // frame_duration) * frame_duration", 'opcodes:00'),
     ('m67', 'C11', 'break', 'skoolkit/tape.py', "        s1 = tuple(get_word(data, k) for k in range(j, j + 2 * p1, 2))\n        j += 2 * p1", "        s1 = tuple(get_word(data, k) for k in range(j, j + 2 * p1, 2))\n        j += 2 * p0", None),
     ('m68', 'C08', 'break', 'skoolkit/skoolutils.py', "            self.banks[page][:] = data", "            self.banks[page] = data", 'opcodes:00'),
     ('m69', 'C10', 'break', 'skoolkit/trace.py', "        self.out7ffd = out7ffd", "        self.out7ffd = outfffd", None),
